@@ -13,7 +13,11 @@ def r14_1(chk, facts):
                       'jsonpointer.hpp that tests for `~`); the public escaping entry points (escape, basic_json_pointer::to_string) each '
                       'contain such a loop or call a helper that does', floor=256)
     fns = [f for f in facts.functions if f['file'].endswith('jsonpointer.hpp') and not f.get('dep') and f.get('body') is not None]
-    def is_writer_loop(lp): return any(A.const(y) == 0x7e for y in A.walk(lp.get('body')) if y.get('k') in ('CharacterLiteral', 'IntegerLiteral') or 'ev' in y)
+    def is_writer_loop(lp):
+        # tests for `~` and emits the digit of an escape (`0` or `1`): the tokenizer, which also tests for `~`, emits `~` and `/` but never a digit
+        tilde = any(A.const(y) == 0x7e for y in A.walk(lp.get('body')) if y.get('k') in ('CharacterLiteral', 'IntegerLiteral') or 'ev' in y)
+        digit = any(A.is_call(y) and A.callee_name(y) in ('push_back', 'append', 'operator+=') and any(A.const(a) in (0x30, 0x31) for a in (y.get('args') or [])) for y in A.walk(lp.get('body')))
+        return tilde and digit
     entries = 0
     for fn in U.one_per_inst([f for f in fns if f['n'] in ('escape', 'to_string')]):
         if fn['n'] == 'to_string' and 'basic_json_pointer' not in (fn.get('cls') or ''): continue
@@ -29,7 +33,7 @@ def r14_1(chk, facts):
         for lp in loops:
             var = lp.get('var') or {}
             # the character loop: the loop variable is compared with '~'
-            cmp_tilde = any(A.const(y) == 0x7e for y in A.walk(lp.get('body')) if y.get('k') in ('CharacterLiteral', 'IntegerLiteral') or 'ev' in y)
+            cmp_tilde = is_writer_loop(lp)
             inner = lp
             if not cmp_tilde: continue
             # nested loops (to_string iterates tokens, then characters): take the innermost loop that mentions '~'
